@@ -40,7 +40,9 @@ Section ExecArgs.
   Inductive bcl (ms : list (str * macro)) : list tok -> Prop :=
     | b_nil : bcl ms []
     | b_one t l : ucls ms t -> bcl ms l -> bcl ms (t :: l)
-    | b_pass m o a c l : passm ms m -> lb o -> rb c -> bal a -> bcl ms a -> bcl ms l ->
+    | b_pass m o a c l : passm ms m -> lb o -> rb c ->
+                         arg_collect (a ++ c :: l) s_rbrace 1 [] = Some (a, l) ->
+                         bcl ms a -> bcl ms l ->
                          bcl ms (m :: o :: a ++ c :: l).
 
   Lemma lb_txt o : lb o -> txt_is o s_lbrace = true /\ txt_is o s_rbrace = false.
@@ -75,9 +77,19 @@ Section ExecArgs.
     rewrite app_nil_r, rev_involutive. reflexivity.
   Qed.
 
+  (* a pass-through macro with a balanced argument is in the class *)
+  Lemma b_pass_bal ms m o a c l :
+    passm ms m -> lb o -> rb c -> bal a -> bcl ms a -> bcl ms l ->
+    bcl ms (m :: o :: a ++ c :: l).
+  Proof.
+    intros Hm Ho Hc Hb Ha Hl. apply b_pass; try assumption.
+    apply arg_collect_group; assumption.
+  Qed.
+
   (* one turn of the loop at a pass-through macro with its braced argument *)
   Lemma step_pass rec fuel st m o a c l env_stop rout :
-    passm (macros st) m -> lb o -> rb c -> bal a ->
+    passm (macros st) m -> lb o -> rb c ->
+    arg_collect (a ++ c :: l) s_rbrace 1 [] = Some (a, l) ->
     exists a' x y,
       a' = (match a with [] => [VoidT (pos o)] | _ => a end) /\
       hd_error a' = Some x /\ hd_error (rev a') = Some y /\
@@ -104,7 +116,7 @@ Section ExecArgs.
     unfold arg_buffer, arg_buffer_c. rewrite Hss. rewrite Ok_.
     assert (Eend : str_eqb s_rbrace s_rbrace = true) by reflexivity.
     rewrite Eend, O1. cbn [negb andb].
-    rewrite (arg_collect_group a c l Hb Hc).
+    rewrite Hb.
     fold a'. rewrite Ea'. cbn [collect_args]. rewrite He. cbn [rbind]. rewrite Hr.
     unfold generate_replacements. cbn [prep_pos gen_repl]. rewrite Ha1.
     cbn [nth_arg py_nth nth_error rbind]. rewrite Ery. cbn [rbind app].
@@ -149,13 +161,26 @@ Section ExecArgs.
   Lemma nst_app a b : nst (a ++ b) = nst a ++ nst b.
   Proof. apply flat_map_app. Qed.
 
+  Lemma arg_collect_more : forall buf e lev acc o r x,
+    arg_collect buf e lev acc = Some (o, r) ->
+    arg_collect (buf ++ x) e lev acc = Some (o, r ++ x).
+  Proof.
+    induction buf as [|t buf IH]; intros e lev acc o r x H; [discriminate|].
+    cbn [app arg_collect] in *.
+    destruct (txt_is t e && _) eqn:E.
+    - inversion H; subst. reflexivity.
+    - apply IH. exact H.
+  Qed.
+
   Lemma bcl_app ms a b : bcl ms a -> bcl ms b -> bcl ms (a ++ b).
   Proof.
     induction 1 as [|t l Ht Hl IH|m o a0 c l Hm Ho Hc Hb Ha IHa Hl IHl]; intros Hb'.
     - exact Hb'.
     - cbn [app]. constructor; [exact Ht | apply IH; exact Hb'].
     - cbn [app]. rewrite <- app_assoc. cbn [app].
-      apply b_pass; try assumption. apply IHl. exact Hb'.
+      apply b_pass; try assumption; [|apply IHl; exact Hb'].
+      pose proof (arg_collect_more _ _ _ _ _ _ b Hb) as Hm'.
+      rewrite <- app_assoc in Hm'. exact Hm'.
   Qed.
 
   Lemma skip_space_bcl ms l : bcl ms l ->
@@ -418,6 +443,82 @@ Section ExecArgs.
         assert (Q4 : texts [c] = []).
         { unfold texts, tx. cbn [filter]. rewrite Ck. reflexivity. }
         rewrite Q1, Q2, Q3, Q4. reflexivity.
+  Qed.
+
+  (* ---- totality on the class (C07): the loop terminates and returns ---- *)
+  Definition wt (t : tok) : nat := match tk t with KMacro => 5%nat | _ => 1%nat end.
+  Definition mu (l : list tok) : nat := fold_right (fun t n => (wt t + n)%nat) 0%nat l.
+  Lemma mu_app a b : mu (a ++ b) = (mu a + mu b)%nat.
+  Proof. induction a as [|x a IH]; simpl; [reflexivity|]. rewrite IH. lia. Qed.
+  Lemma mu_skip b : (mu (skip_space b) <= mu b)%nat.
+  Proof.
+    induction b as [|t b IH]; simpl; [lia|]. destruct (buf_is_space t); simpl; lia.
+  Qed.
+  Lemma mu_len a : (length a <= mu a)%nat.
+  Proof. induction a as [|x a IH]; simpl; [lia|]. unfold wt. destruct (tk x); lia. Qed.
+
+  Theorem exec_args_total : forall fuel toks rout st,
+    bcl (macros st) toks -> (mu toks < fuel)%nat ->
+    exists r, exec T rd fuel (TSeq toks None rout) st = Ok r.
+  Proof.
+    induction fuel as [|k IH]; intros toks rout st Hc Hf; [lia|].
+    cbn [exec step]. inversion Hc as [E0|t b Ht Hb E0|m o a c l Hm Ho Hcl Hbal Ha Hl E0]; subst.
+    - cbn [step_seq]. destruct (rpal_total isp (rev rout)) as [o E]. rewrite E. cbn [rbind].
+      eexists. reflexivity.
+    - cbn [mu fold_right] in Hf. fold (mu b) in Hf.
+      inversion Ht as [? He|? Hk Hd Hm|? Hk Hi|? Hk Htx|? Hk Hbr|? v Hk Hi Hv]; subst.
+      + rewrite (step_seq_etok T rd Htab) by exact He. apply IH; [exact Hb|].
+        unfold wt in Hf. destruct (tk t); lia.
+      + destruct (step_macro T rd (exec T rd k) k st t b None rout Hk Hd Hm)
+          as (st1 & Es & _ & Em1).
+        rewrite Es. destruct (skip_space_bcl _ _ Hb) as (pre & _ & _ & _ & Hrest).
+        apply IH.
+        * rewrite Em1. constructor; [apply u_action; [left|]; reflexivity | exact Hrest].
+        * cbn [mu fold_right]. fold (mu (skip_space b)). pose proof (mu_skip b).
+          unfold wt in *. rewrite Hk in Hf. cbn [tk ActionT mk]. lia.
+      + rewrite (step_comment T rd) by assumption. apply IH; [exact Hb|].
+        unfold wt in Hf. rewrite Hk in Hf. lia.
+      + rewrite (step_action T rd Htab) by assumption. apply IH; [exact Hb|].
+        unfold wt in Hf. destruct Hk as [Hk|Hk]; rewrite Hk in Hf; lia.
+      + rewrite (step_brace T rd) by assumption. apply IH; [exact Hb|].
+        unfold wt in Hf. rewrite Hk in Hf. lia.
+      + rewrite (step_special T rd _ _ _ _ _ _ _ v Hk Hi Hv). apply IH; [exact Hb|].
+        unfold wt in Hf. rewrite Hk in Hf. lia.
+    - destruct (step_pass (exec T rd k) k st m o a c l None rout Hm Ho Hcl Hbal)
+        as (a' & x & y & Ea' & Hx & Hy & Es).
+      rewrite Es.
+      assert (Ha' : bcl (macros st) a').
+      { rewrite Ea'. destruct a as [|z a0]; [|exact Ha].
+        constructor; [apply u_action; [right|]; reflexivity | constructor]. }
+      apply IH.
+      + constructor; [apply u_action; [left|]; reflexivity|].
+        constructor; [apply u_action; [left|]; reflexivity|].
+        apply bcl_app; [exact Ha'|].
+        constructor; [apply u_action; [left|]; reflexivity | exact Hl].
+      + destruct Hm as (Hk & _). 
+        change (m :: o :: a ++ c :: l) with ([m; o] ++ a ++ [c] ++ l) in Hf.
+        change (ActionT (pos m) :: ActionT (pos x) :: a' ++ ActionT (pos y) :: l)
+          with ([ActionT (pos m); ActionT (pos x)] ++ a' ++ [ActionT (pos y)] ++ l).
+        rewrite !mu_app in *. 
+        assert (M1 : mu [m; o] = (5 + wt o)%nat) by (cbn; unfold wt at 1; rewrite Hk; lia).
+        assert (M2 : mu [ActionT (pos m); ActionT (pos x)] = 2%nat) by reflexivity.
+        assert (M3 : mu [ActionT (pos y)] = 1%nat) by reflexivity.
+        assert (M4 : (mu a' <= mu a + 1)%nat).
+        { rewrite Ea'. destruct a; [cbn; lia | lia]. }
+        assert (M5 : (1 <= mu [c])%nat) by (cbn; unfold wt; destruct (tk c); lia).
+        assert (M6 : (1 <= wt o)%nat) by (unfold wt; destruct (tk o); lia).
+        lia.
+  Qed.
+
+  (* sufficient fuel in terms of the length of the list *)
+  Corollary exec_args_total_len toks rout st :
+    bcl (macros st) toks ->
+    exists r, exec T rd (S (5 * length toks)) (TSeq toks None rout) st = Ok r.
+  Proof.
+    intros Hc. apply exec_args_total; [exact Hc|].
+    assert (H : (mu toks <= 5 * length toks)%nat).
+    { clear. induction toks as [|t l IH]; simpl; [lia|]. unfold wt. destruct (tk t); lia. }
+    lia.
   Qed.
 
   (* the words stay -- also those inside arguments --, the markup vanishes,
